@@ -436,6 +436,127 @@ def recv_guard_only(path="linklayer/raw_link_layer.py"):
     return True
 
 
+def _is_none_test(test, var, positive=True):
+    """`var is None` (positive) / `var is not None` (negative)"""
+    return (isinstance(test, ast.Compare) and isinstance(test.left, ast.Name) and test.left.id in var
+            and len(test.ops) == 1 and isinstance(test.ops[0], ast.Is if positive else ast.IsNot)
+            and isinstance(test.comparators[0], ast.Constant) and test.comparators[0].value is None)
+
+
+def _mentions(test, var):
+    return any(isinstance(n, ast.Name) and n.id in var for n in ast.walk(test))
+
+
+def queue_stop_test(path="linklayer/cv2x_link_layer.py", cls="PythonCV2XLinkLayer", func="callback_handler_loop"):
+    """How does the queue loop decide to END?  Every `break` / `return` / `raise` in the body of the function's `while`
+    (outside `except` handlers - those are judged by `handler_kind` - and outside nested loops / functions) is classified by
+    the `if` that guards it, where `x` is a name bound to `<queue>.get(...)`:
+      isNone  - `if x is None: <exit>` (or the else-branch of `if x is not None`): an IDENTITY test against the stop
+                signal; no byte string, not even the empty one, is None;
+      falsy   - the test looks at the truth value / length / equality of `x` (`if not x`, `if x`, `len(x) == 0`,
+                `x == b""` ...): an empty GN packet ends the loop;
+      other   - unguarded, or guarded by something that does not mention `x`.
+    Result: 'never' (no exit), 'isNone' (all exits are identity tests), 'falsy' (some exit looks at the value), 'other'."""
+    fn = _find_func(path, cls, func)
+    par = _ancestors(fn)
+    whiles = [n for n in ast.walk(fn) if isinstance(n, ast.While)]
+    if not whiles:
+        return "other"
+    loop = whiles[0]
+    var = set()
+    for n in ast.walk(loop):
+        if isinstance(n, ast.Assign) and isinstance(n.value, ast.Call) and isinstance(n.value.func, ast.Attribute) \
+                and n.value.func.attr in ("get", "get_nowait"):
+            var |= {t.id for t in n.targets if isinstance(t, ast.Name)}
+        if isinstance(n, ast.NamedExpr) and isinstance(n.value, ast.Call) and isinstance(n.value.func, ast.Attribute) \
+                and n.value.func.attr in ("get", "get_nowait"):
+            var.add(n.target.id)
+    kinds = []
+    if not (isinstance(loop.test, ast.Constant) and loop.test.value is True):
+        kinds.append("falsy" if _mentions(loop.test, var) else "other")        # `while data:` and the like
+    for n in ast.walk(loop):
+        if not isinstance(n, (ast.Break, ast.Return, ast.Raise)):
+            continue
+        # path from the exit up to the loop
+        chain, x, skip = [], n, False
+        while x is not loop:
+            up = par[x]
+            if isinstance(up, ast.ExceptHandler) or (isinstance(up, (ast.For, ast.While)) and up is not loop
+                                                      and isinstance(n, ast.Break)) \
+                    or isinstance(up, (ast.FunctionDef, ast.Lambda)):
+                skip = True
+                break
+            if isinstance(up, ast.If):
+                chain.append((up, x in up.body or any(x is b for b in up.body)))
+            x = up
+        if skip:
+            continue
+        if isinstance(n, ast.Raise) and any(isinstance(par.get(a), ast.Try) for a in _chain_nodes(n, par, loop)):
+            continue          # a raise inside a try of the loop body is judged by the except clauses
+        if not chain:
+            kinds.append("other")
+            continue
+        test, in_body = chain[0]
+        if (in_body and _is_none_test(test.test, var, True)) or (not in_body and _is_none_test(test.test, var, False)):
+            kinds.append("isNone")
+        elif _mentions(test.test, var):
+            kinds.append("falsy")
+        else:
+            kinds.append("other")
+    if not kinds:
+        return "never"
+    if all(k == "isNone" for k in kinds):
+        return "isNone"
+    return "falsy" if "falsy" in kinds else "other"
+
+
+def _chain_nodes(n, par, stop):
+    out = []
+    while n is not stop:
+        out.append(n)
+        n = par[n]
+    return out
+
+
+def raw_frame_exits(path="linklayer/raw_link_layer.py"):
+    """number of `break` / `return` statements in the `while` of RawLinkLayer.receive that are NOT in the handler of the
+    `try` around the socket read: ways in which a RECEIVED frame (rather than a socket error) can end the loop"""
+    fn = _find_func(path, "RawLinkLayer", "receive")
+    par = _ancestors(fn)
+    whiles = [n for n in ast.walk(fn) if isinstance(n, ast.While)]
+    if not whiles:
+        return 99
+    loop, n_exits = whiles[0], 0
+    if not (isinstance(loop.test, ast.Constant) and loop.test.value is True):
+        n_exits += 1
+    for n in ast.walk(loop):
+        if not isinstance(n, (ast.Break, ast.Return)):
+            continue
+        x, in_recv_guard = n, False
+        while x is not loop:
+            up = par[x]
+            if isinstance(up, ast.ExceptHandler):
+                t = par[up]
+                in_recv_guard = (isinstance(t, ast.Try) and len(t.body) == 1 and _calls(t.body[0], "recv")
+                                 and not _calls(t.body[0], "receive_callback"))
+                break
+            x = up
+        if not in_recv_guard:
+            n_exits += 1
+    return n_exits
+
+
+@gen_lean.register(props=["C04"])
+def gen_c04_shared():
+    """facts written by other properties' generators on which Props.C04 states obligations of its own: the receive-context
+    discipline of Router (Generated/RouterRx.lean, gen_router.py, C06) and the lock graph (Generated/Locks.lean,
+    gen_locks.py, C15): regenerated from the tree under test when C04 is checked"""
+    import gen_router
+    import gen_locks
+    gen_router.gen_router_rx()
+    gen_locks.gen_locks()
+
+
 @gen_lean.register(props=["C04"])
 def gen_except():
     from flexstack.geonet.exceptions import DecodeError, DecapError
@@ -451,6 +572,12 @@ def gen_except():
     body += lean_shape("rawLoop", raw) + lean_shape("cv2xLoop", cv2x) + lean_shape("gnIndicate", gn)
     body += f"/-- every try of RawLinkLayer.receive with a handler that leaves the loop encloses the socket read only -/\n"
     body += f"def rawRecvGuardOnly : Bool := {'true' if recv_guard_only() else 'false'}\n"
+    body += ("/-- how PythonCV2XLinkLayer.callback_handler_loop decides to end: every exit of its `while` is guarded by an "
+             "identity test of the dequeued item against None (`isNone`), or looks at its value (`falsy`) ... -/\n")
+    body += f"def cv2xStopTest : StopTest := .{queue_stop_test()}\n"
+    body += ("/-- break / return statements of the `while` of RawLinkLayer.receive outside the handler of the `try` around "
+             "the socket read -/\n")
+    body += f"def rawFrameExits : Nat := {raw_frame_exits()}\n"
     body += (f"/-- {len(t['table'])} classes: raise statements of {t['n_flex_modules']} flexstack modules (import closure of the "
              f"receive path) and {t['n_third_modules']} third-party modules, builtins derived from Exception, observed -/\n")
     body += "def raiseTable : List (String × List String) := [\n"
